@@ -6,11 +6,12 @@ C15 — Every module's public type label matches its ISO region.
 * `C15_count`           : the number of `Data`-labelled cells is 8 * total codewords + remainder
                           bits, and they are exactly the ISO encoding region in read-out order
                           (tier N checker `scanOk`).
-* `C15_labels_preserved`: (symbolic) `Module::set`, `Module::toggle` keep the label, and the format
-                          writer writes `Format`-typed modules; see Proofs/Invariance.lean for the
-                          lift to built symbols.
+* `C15_labels_preserved`: (symbolic) `Module::set`, `Module::toggle` keep the label.
+* `C15_labels`          : (symbolic, EVERY input / options) the label of every module of every symbol
+                          the model builder returns is its ISO region.
 -/
 import FastQr.Proofs.TemplateSound
+import FastQr.Proofs.BuildSound
 
 namespace FastQr.Props.C15
 open FastQr Model Spec Finite Proofs
@@ -33,6 +34,14 @@ theorem C15_count {v : Nat} (hv : v < 40) :
 /-- setting or toggling a module never changes its label -/
 theorem C15_labels_preserved (b : Nat) (x : Bool) :
     mtype (mset b x) = mtype b ∧ mtype (mtoggle b) = mtype b := ⟨mtype_mset b x, mtype_mtoggle b⟩
+
+/-- **C15 (every built symbol)**: for EVERY input and option combination for which the model builder
+returns a symbol, the label of every module is its ISO region — labels do not depend on payload,
+level or mask -/
+theorem C15_labels (inp : List Nat) (o : Opts) (ho : LegalOpts o) (b : Built)
+    (h : (build inp o).val = .ok b) {r c : Nat} (hr : r < Regions.side b.version)
+    (hc : c < Regions.side b.version) : b.qr.type r c = (Regions.region b.version r c).code :=
+  (built_props inp o ho b h hr hc).2.1
 
 example : (Regions.region 6 0 34).code = 5 ∧ (Regions.region 6 8 2).code = 4 ∧
     (Regions.region 6 20 20).code = 2 ∧ (Regions.region 6 10 10).code = 0 := by decide +kernel
